@@ -53,6 +53,7 @@ QUAL = {'int': '_b.int', 'float': '_b.float', 'str': '_b.str', 'bool': '_b.bool'
         'skip_if_field': '_dw.skip_if_field', 'CatchAll': '_dw.CatchAll', 'JSONWizard': '_dw.JSONWizard',
         'JSONPyWizard': '_dw.JSONPyWizard', 'YAMLWizard': '_wm.YAMLWizard', 'TOMLWizard': '_wm.TOMLWizard',
         'JSONFileWizard': '_wm.JSONFileWizard', 'BaseJSONWizardMeta': '_bm.BaseJSONWizardMeta', 'type': '_b.type', 'float(': '_b.float('}
+QUAL.update({'Annotated': '_t.Annotated', 'IntEnum': '_en.IntEnum', 'StrEnum': '_en.StrEnum'})
 for _n in ('EQ', 'NE', 'LT', 'LE', 'GT', 'GE', 'IS', 'IS_NOT', 'IS_TRUTHY', 'IS_FALSY'):
     QUAL[_n] = '_dw.' + _n
 
@@ -110,7 +111,23 @@ def ty_src(t, defs):
         if t['name'] not in defs:
             body = '\n'.join(f'    {m} = {lit_src(v)}' for m, v in t['members'])
             pn = t.get('pyname') or t['name']
-            defs[t['name']] = wrap_def(t['name'], t.get('pyname'), f'class {pn}({q("Enum")}):\n{body}\n')
+            defs[t['name']] = wrap_def(t['name'], t.get('pyname'), f'class {pn}({enum_bases(t)}):\n{body}\n')
+        return t['name']
+    if k == 'annpat':
+        # Annotated[<type>, Pattern(fmt)] (default engine); `const` names a module-level Pattern object that several
+        # annotations share
+        inner = ty_src(a[0], defs)
+        if t.get('const'):
+            if t['const'] not in defs:
+                defs[t['const']] = f'{t["const"]} = _dw.Pattern({t["fmt"]!r})\n'
+            pat = t['const']
+        else:
+            pat = f'_dw.Pattern({t["fmt"]!r})'
+        return f'{q("Annotated")}[{inner}, {pat}]'
+    if k == 'sub':
+        # a user-defined subclass of a stdlib leaf type (class SubN(date): pass)
+        if t['name'] not in defs:
+            defs[t['name']] = f'class {t["name"]}({q(PY_NAME[t["base"]])}):\n    pass\n'
         return t['name']
     if k == 'namedtuple':
         if t['name'] not in defs:
@@ -145,6 +162,16 @@ def ty_src(t, defs):
             defs[name] = src
         return name
     raise ValueError(k)
+
+
+def enum_bases(t):
+    """base list of an Enum definition: plain Enum, or (optional `mixin`) a data-type mix-in / IntEnum / StrEnum"""
+    mx = t.get('mixin')
+    if mx in (None, ''):
+        return q('Enum')
+    if mx in ('IntEnum', 'StrEnum'):
+        return q(mx) if SAFE else '_en.' + mx
+    return f'{q(mx)}, {q("Enum")}'
 
 
 def dflt_src(d):
